@@ -52,6 +52,7 @@ def run(repo, run, tier):
     bracket_invariant(repo, run)
     product_sign_tests(repo, run)
     tolerance_floor(repo, run)
+    stop_width(repo, run)
     no_aliased_iteration_arrays(repo, run)
 
 
@@ -517,6 +518,31 @@ def product_sign_tests(repo, run, rule_id="C14.7", funcs=("brentsroot", "brentsr
                                                        "(false success / no rejection) and opposite signs count as none (the bracket loses the root)" % (q, src(prod)))
     if n == 0:
         raise AnalysisError("Brent solvers: no sign test of two function values found")
+
+
+def stop_width(repo, run):
+    """'within the requested tolerance of a sign change': the solvers return the end point b of the final bracket, so the loop may stop on the bracket's width only when
+    the WHOLE width |b - a| is below the tolerance (the sign change lies somewhere in [a, b]); a half-width criterion is right for a solver that returns the midpoint."""
+    rid = run.rule("C14.11", "every width-based stopping test of the Brent solvers compares |b - a| itself with tol (no fraction of the width): the returned point is an END of the bracket", floor=2)
+    n = 0
+    for q in ("brentsroot", "brentsrootvec"):
+        fn = repo.get(OPT, q)
+        for cmp_ in [x for x in ast.walk(fn) if isinstance(x, ast.Compare) and len(x.ops) == 1 and isinstance(x.ops[0], (ast.Lt, ast.LtE, ast.Gt, ast.GtE))]:
+            sides = [cmp_.left, cmp_.comparators[0]]
+            tol_side = [s_ for s_ in sides if src(s_) == "tol"]
+            w_side = [s_ for s_ in sides if s_ not in tol_side and any(isinstance(x, ast.BinOp) and isinstance(x.op, ast.Sub) and {src(x.left), src(x.right)} == {"a", "b"} for x in ast.walk(s_))]
+            if not tol_side or not w_side:
+                continue
+            n += 1
+            w = w_side[0]
+            plain = isinstance(w, ast.Call) and fname(w) == "abs" and len(w.args) == 1 and isinstance(w.args[0], ast.BinOp) and isinstance(w.args[0].op, ast.Sub)
+            run.judged(rid, "%s: `%s`" % (q, src(cmp_)[:70]), ok=plain)
+            if not plain:
+                run.report("C14.11", OPT, cmp_, "%s stops when `%s` is below tol, not when the full width |b - a| is: the final bracket can be up to twice the tolerance wide, and the "
+                                                "returned END point is then up to 2*tol from the sign change while success is reported (bisection-terminated runs: jumps, very steep "
+                                                "functions)" % (q, src(w)[:50]), text="%s: stopping width %s" % (q, src(w)[:50]))
+    if n == 0:
+        raise AnalysisError("Brent solvers: no width-based stopping test found")
 
 
 def tolerance_floor(repo, run):
